@@ -75,7 +75,7 @@ fn cmp_attrs(what: &str, input: &[syn::Attribute], output: &[syn::Attribute]) ->
 }
 
 /// compare method signatures modulo the documented async rewrite
-fn cmp_sig(name: &str, input: &syn::Signature, output: &syn::Signature, async_trait: bool) -> Result<(), String> {
+fn cmp_sig(name: &str, input: &syn::Signature, output: &syn::Signature, async_trait: bool, maybe_send: bool) -> Result<(), String> {
     if input.asyncness.is_some() && !async_trait {
         let mut a = input.clone();
         let mut b = output.clone();
@@ -97,6 +97,7 @@ fn cmp_sig(name: &str, input: &syn::Signature, output: &syn::Signature, async_tr
                 syn::Type::ImplTrait(it) => {
                     let mut fut_ok = false;
                     let mut others_ok = true;
+                    let mut sends = 0;
                     for bound in &it.bounds {
                         match bound {
                             syn::TypeParamBound::Trait(tb) => {
@@ -113,12 +114,21 @@ fn cmp_sig(name: &str, input: &syn::Signature, output: &syn::Signature, async_tr
                                             }
                                         }
                                     }
-                                    Some(seg) if seg.ident == "Send" => {}
+                                    Some(seg) if seg.ident == "Send" => sends += 1,
                                     _ => others_ok = false,
                                 }
                             }
                             _ => others_ok = false,
                         }
+                    }
+                    // `+ Send` is part of the documented rewrite exactly when `?Send` was not given
+                    if fut_ok && others_ok && sends != if maybe_send { 0 } else { 1 } {
+                        return Err(format!(
+                            "async method `{name}`: rewritten return type `{}` {} although the invocation {}",
+                            tok::render(&t_of(&got_ret)),
+                            if sends == 0 { "has no `Send` bound" } else { "requires `Send`" },
+                            if maybe_send { "says `?Send`" } else { "does not say `?Send`" }
+                        ));
                     }
                     fut_ok && others_ok
                 }
@@ -146,7 +156,7 @@ pub struct Tol {
     pub assoc_type_dropped: bool,
 }
 
-pub fn compare(input: &syn::ItemTrait, output: &syn::ItemTrait, tol: Tol) -> Result<(), String> {
+pub fn compare(input: &syn::ItemTrait, output: &syn::ItemTrait, tol: Tol, maybe_send: bool) -> Result<(), String> {
     cmp_attrs("trait", &input.attrs, &output.attrs)?;
     cmp("visibility", &input.vis, &output.vis)?;
     if input.unsafety.is_some() != output.unsafety.is_some() {
@@ -170,7 +180,7 @@ pub fn compare(input: &syn::ItemTrait, output: &syn::ItemTrait, tol: Tol) -> Res
                     None => return Err(format!("method `{name}` missing from the trait")),
                 };
                 cmp_attrs(&format!("method `{name}`"), &f.attrs, &g.attrs)?;
-                cmp_sig(&name, &f.sig, &g.sig, async_trait)?;
+                cmp_sig(&name, &f.sig, &g.sig, async_trait, maybe_send)?;
                 match (&f.default, &g.default) {
                     (None, None) => {}
                     (Some(a), Some(b)) => {
@@ -234,7 +244,12 @@ pub fn check(macro_name: &str, attr: &str, item: &str, tol: Tol) -> Result<&'sta
         .iter()
         .find_map(|i| if let syn::Item::Trait(t) = i { (t.ident == input.ident).then_some(t) } else { None })
         .ok_or_else(|| format!("expansion contains no trait named `{}`", input.ident))?;
-    compare(&input, output, tol).map(|_| "accepted")
+    // `?Send` among the attribute arguments (top level of the argument list)
+    let maybe_send = {
+        let a = tok::toks_of_src(attr).map_err(|e| format!("HARNESS: {e}"))?;
+        a.windows(2).any(|w| w[0] == Tok::Punct('?') && w[1] == Tok::Ident("Send".into()))
+    };
+    compare(&input, output, tol, maybe_send).map(|_| "accepted")
 }
 
 pub fn gen_case(t: &mut Tape) -> Case {
